@@ -103,3 +103,37 @@ void harness_compress(void)
 	free(src); free(dest);
 	WITNESS_END();
 }
+
+/* a compressed message that arrives in fragments: stored by reassemble, inflated when the last fragment arrived,
+ * handed to the application once, buffers released; a following fragmented message starts from a clean state */
+static int frag_cb_calls; static size_t frag_cb_len;
+static enum websocket_callback_return frag_cb(struct websocket *s, char *m, size_t l, bool last)
+{
+	(void)s; frag_cb_calls++; frag_cb_len = l;
+	CHECK(last, "C19.reassembled_message_delivered_as_one_final_piece");
+	if (l > 0) { volatile char a = m[0], b = m[l - 1]; (void)a; (void)b; }      /* the application reads what it was given: inside the buffer */
+	return WS_OK;
+}
+void harness_fragmented(void)
+{
+	WS.extension_compression.compression_level = 2;
+	WS.extension_compression.strm_decomp.avail_in = 0;
+	WS.extension_compression.strm_decomp.next_in = 0;
+	size_t l1 = nd_size(), l2 = nd_size();
+	__CPROVER_assume(l1 >= 1 && l1 <= FMAX && l2 >= 1 && l2 <= FMAX);
+	uint8_t *f1 = malloc(l1), *f2 = malloc(l2);
+	__CPROVER_assume(f1 != 0 && f2 != 0);
+	enum websocket_callback_return r1 = text_frame_received_comp(true, &WS, (char *)f1, l1, false, frag_cb);
+	CHECK(r1 == WS_OK && frag_cb_calls == 0, "C19.fragment_stored_until_the_message_is_complete");
+	enum websocket_callback_return r2 = text_frame_received_comp(true, &WS, (char *)f2, l2, true, frag_cb);
+	if (r2 == WS_OK) {
+		CHECK(frag_cb_calls == 1, "C19.reassembled_message_delivered_exactly_once");
+		CHECK(WS.extension_compression.strm_decomp.avail_in == 0, "C19.next_fragmented_message_starts_from_a_clean_state");
+		REACH("delivered");
+	} else {
+		CHECK(frag_cb_calls == 0, "C19.rejected_stream_is_not_delivered");
+		REACH("rejected");
+	}
+	free(f1); free(f2);
+	WITNESS_END();
+}
